@@ -17,9 +17,10 @@ const (
 	kS2        // accepted, different shape (cleanup + error)
 	kF         // analysis fails (missing provider)
 	kN         // no injectors
+	kFT        // accepted without tags; with -tags t a further injector file joins whose injector lacks a provider
 )
 
-var slotKindNames = []string{"S1", "S2", "F", "N"}
+var slotKindNames = []string{"S1", "S2", "F", "N", "FT"}
 
 func slotFiles(dir string, kind int) map[string]string {
 	pkg := dir
@@ -41,6 +42,12 @@ func slotFiles(dir string, kind int) map[string]string {
 		return map[string]string{
 			dir + "/foo.go":  foo,
 			dir + "/wire.go": hdr + "func InitSvc() *Svc {\n\tpanic(wire.Build(NewSvc))\n}\n",
+		}
+	case kFT:
+		return map[string]string{
+			dir + "/foo.go":    foo,
+			dir + "/wire.go":   hdr + "func InitSvc() *Svc {\n\tpanic(wire.Build(NewCfg, NewSvc))\n}\n",
+			dir + "/wire_t.go": "//go:build wireinject && t\n// +build wireinject,t\n\npackage " + pkg + "\n\nimport \"github.com/google/wire\"\n\nfunc InitBroken() *Svc {\n\tpanic(wire.Build(NewSvc))\n}\n",
 		}
 	default:
 		return map[string]string{dir + "/foo.go": foo}
@@ -177,7 +184,7 @@ func checkC17(c *h.Check) {
 			}
 			return
 		}
-		for k := 0; k < 4; k++ {
+		for k := 0; k < 5; k++ {
 			if !thorough && i > 0 && k < kinds[i-1] && !(k == kF || kinds[i-1] == kF) {
 				continue // quick: unordered slot assignments, except that a failing package is tried in every position
 			}
@@ -197,6 +204,13 @@ func checkC17(c *h.Check) {
 			}
 			ops = append(ops, h.FSOp{Name: "diff:" + o.name, Argv: append(append([]string{"diff"}, o.args...), "./...")})
 		}
+		ops = append(ops,
+			h.FSOp{Name: "gen:with-missing-dir", Argv: []string{"gen", "./s0", "./nonexistent"}},
+			h.FSOp{Name: "gen:only-missing-dir", Argv: []string{"gen", "./nonexistent"}},
+			h.FSOp{Name: "gen:empty-dir", Argv: []string{"gen", "./hdrdir"}},
+			h.FSOp{Name: "diff:only-missing-dir", Argv: []string{"diff", "./nonexistent"}},
+			h.FSOp{Name: "check:only-missing-dir", Argv: []string{"check", "./nonexistent"}},
+		)
 		ops = append(ops,
 			h.FSOp{Name: "check:none", Argv: []string{"check", "./..."}},
 			h.FSOp{Name: "check:tags", Argv: []string{"check", "-tags", "t", "./..."}},
@@ -236,6 +250,36 @@ func checkC17(c *h.Check) {
 		}
 		cmd := op.Name[:strings.Index(op.Name, ":")]
 		opt := optOf(op.Name)
+		tagged := strings.HasSuffix(op.Name, ":tags")
+		for _, k := range meta.kinds {
+			if k == kFT && tagged {
+				hasF = true
+			}
+		}
+		if strings.HasSuffix(op.Name, "-missing-dir") || strings.HasSuffix(op.Name, ":empty-dir") {
+			// a pattern that names no loadable package: an error, never a silent success
+			want := 1
+			if cmd == "diff" {
+				want = 2
+			}
+			if o.Exit == 0 || (cmd == "diff" && o.Exit != want) {
+				bad(cmd+"-status", "%s with a pattern that matches no loadable package exited %d", cmd, o.Exit)
+			}
+			if strings.TrimSpace(o.Stderr) == "" {
+				bad(cmd+"-silent", "no diagnostic for a pattern that matches no loadable package")
+			}
+			if cmd != "gen" && len(d) > 0 {
+				bad("readonly-command-writes", "%s changed the tree: %v", cmd, d)
+			}
+			if cmd == "gen" {
+				for _, x := range d {
+					if !strings.HasSuffix(x, "wire_gen.go") {
+						bad("gen-footprint", "gen touched %s", x)
+					}
+				}
+			}
+			return vs
+		}
 		switch cmd {
 		case "gen":
 			if !opt.usable {
@@ -253,8 +297,11 @@ func checkC17(c *h.Check) {
 			allowed := map[string]bool{}
 			for sl, k := range meta.kinds {
 				target := dirs[sl] + "/" + opt.prefix + "wire_gen.go"
+				if k == kFT && opt.key == "tags" {
+					continue // fails under the tag: its file must stay as it was (checked by the footprint rule)
+				}
 				switch k {
-				case kS1, kS2:
+				case kS1, kS2, kFT:
 					allowed[target] = true
 					if after[target] != freshOf(sl, k, opt.key) {
 						bad("gen-output", "%s is not what generating package %s alone from scratch gives (a failing or other package influenced it, or it was not written)", target, dirs[sl])
@@ -277,7 +324,7 @@ func checkC17(c *h.Check) {
 				want = 2
 			default:
 				for sl, k := range meta.kinds {
-					if k == kS1 || k == kS2 {
+					if k == kS1 || k == kS2 || k == kFT {
 						if s.Tree[dirs[sl]+"/wire_gen.go"] != freshOf(sl, k, opt.key) {
 							want = 1
 						}
@@ -293,6 +340,18 @@ func checkC17(c *h.Check) {
 			}
 			if (o.Exit == 0) == hasF {
 				bad(cmd+"-status", "%s exit %d with failing package present=%v", cmd, o.Exit, hasF)
+			}
+			if cmd == "show" && !hasF {
+				// the injectors listed are those of the analysed configuration: the tag-dependent one exactly under -tags
+				for sl, k := range meta.kinds {
+					if k != kS1 {
+						continue
+					}
+					name := "\"" + ex.ModPath + "/" + dirs[sl] + "\".InitTagged"
+					if strings.Contains(o.Stdout, name) != tagged {
+						bad("show-tags", "show (tags=%v) lists the tag-dependent injector %s: %v", tagged, name, strings.Contains(o.Stdout, name))
+					}
+				}
 			}
 		}
 		return vs
@@ -325,7 +384,7 @@ func checkC17(c *h.Check) {
 	c.Coverage["initial_states"] = len(initial)
 	c.Coverage["evaluations"] = ex.Transitions
 	c.Coverage["distinct_nontrivial"] = ex.States
-	c.Coverage["rule"] = fmt.Sprintf("explicit-state BFS (states = module trees by hash) from every assignment of package kinds {S1 accepted with a tag-dependent injector file, S2 accepted, F analysis fails, N no injectors} to %d package slots x prior output content chosen per slot {absent, identical, stale, identical plus trailing bytes, truncated prefix}; transitions: gen x {no option, -header_file readable, -header_file missing, -header_file naming a directory, -output_file_prefix, -tags, default-command form}, diff x {none, header, header missing, tags}, check and show x {none, tags}; chained to depth %d. Reference contract evaluated on every transition: exit status rules, exact file footprint, outputs equal to generating each package alone from scratch, read-only commands leave the tree hash unchanged, diff 0/1/2.", nslots, depth)
+	c.Coverage["rule"] = fmt.Sprintf("explicit-state BFS (states = module trees by hash) from every assignment of package kinds {S1 accepted with a tag-dependent injector file, S2 accepted, F analysis fails, N no injectors, FT fails only under -tags t} to %d package slots x prior output content chosen per slot {absent, identical, stale, identical plus trailing bytes, truncated prefix}; transitions: gen x {no option, -header_file readable, -header_file missing, -header_file naming a directory, -output_file_prefix, -tags, default-command form}, diff x {none, header, header missing, tags}, check and show x {none, tags}; gen/diff/check with patterns naming a missing or an empty directory; chained to depth %d. Reference contract evaluated on every transition: exit status rules, exact file footprint, outputs equal to generating each package alone from scratch, read-only commands leave the tree hash unchanged, diff 0/1/2.", nslots, depth)
 	c.Samples = append(c.Samples, map[string]interface{}{"initial": initial[len(initial)/2].Path, "ops": []string{"gen:header", "diff:none", "check:tags"}})
 	c.Assumptions = append(c.Assumptions, "a failing package is one whose Wire analysis fails; packages that do not type-check abort the whole load by design and are outside the alphabet", "reference output = the same binary generating the package alone from scratch (differential)")
 	if !ex.Closed {
